@@ -33,10 +33,29 @@ class Ctx:
         return self.cached("callgraph", lambda: CallGraph(self.repo, self.folder))
 
     @property
+    def partial(self):  # type: ignore[no-untyped-def]
+        from sa.partial import PartialOps
+
+        return self.cached("partial", lambda: PartialOps(self.repo, self.callgraph, self.folder))
+
+    @property
     def escapes(self):  # type: ignore[no-untyped-def]
         from sa.escapes import EscapeAnalysis
 
-        return self.cached("escapes", lambda: EscapeAnalysis(self.repo, self.callgraph, self.folder))
+        return self.cached(
+            "escapes",
+            lambda: EscapeAnalysis(
+                self.repo, self.callgraph, self.folder, implicit=self.partial.undischarged
+            ),
+        )
+
+    @property
+    def lexer(self):  # type: ignore[no-untyped-def]
+        return self.partial.lexer
+
+    @property
+    def tokflow(self):  # type: ignore[no-untyped-def]
+        return self.partial.tokflow
 
 
 Rule = Callable[[Ctx], RuleResult]
